@@ -10,6 +10,11 @@ print("|---|---|---|---|---|")
 for m in rows:
     before = m.get("caught_before_strengthening")
     col = (', '.join(before) or '**none**') if before is not None else 'same'
-    if before is None and str(m.get("owner_check_on_arrival", "")).startswith("missed"):
+    arr = str(m.get("owner_check_on_arrival", ""))
+    if before is None and arr.startswith("missed"):
         col = "owner **missed** (only the owner's check was run on arrival)"
-    print(f"| `{m['name']}` | {m['breaks_property']} | {m['needs_to_manifest']} | {', '.join(m['caught_by_quick_checks']) or '**none**'} | {col} |")
+    elif before is None and arr.startswith("strengthened in anticipation"):
+        col = "owner **missed** (strengthened in anticipation, before the first run)"
+    elif before is None and arr.startswith("inconclusive"):
+        col = "owner **inconclusive** on arrival (counted as a miss)"
+    print(f"| `{m['name']}` | {m['breaks_property']} | {m['needs_to_manifest']} | {', '.join(m.get('caught_by_quick_checks', ['(matrix pending)'])) or '**none**'} | {col} |")
